@@ -132,6 +132,7 @@ static void cells_pairwise(int wl, int lat)
 }
 
 /* two real clients behind one server (ea2.c): client-to-client forwarding, two sessions' held queries */
+static int add_relay(int qx, int ax, unsigned types, int limit, int edns);
 static void cells_two(void)
 {
 	static const int QTS[] = { 0, 2, 4, 5, 1 };
@@ -144,6 +145,15 @@ static void cells_two(void)
 	for (unsigned q = 0; q < sizeof QTS / sizeof QTS[0]; q++) for (int lazy = 1; lazy >= 0; lazy--) for (int f = 0; f < 2; f++) {
 		cell c = { QTS[q], 0, 0, f ? 200 : 0, 255, lazy, 0, 0, 0, 7, 2 };
 		if ((c.qt == 5) && c.fs > 50) c.fs = 50;
+		add_cell(c);
+	}
+	/* ... and B behind a path on which it settles for more modest codecs than A had: names folded to lower case (Base32 upstream,
+	 * for which the client sends no switch request), and the same with answers folded too (Base32 downstream) */
+	static int rl_both;
+	if (!rl_both) rl_both = add_relay(1, 1, 0, 0, 1);
+	for (unsigned q = 0; q < 3; q++) for (int lazy = 1; lazy >= 0; lazy--) for (int v = 0; v < 2; v++) {
+		cell c = { QTS[q], 0, v ? 0 : 1, 0, 255, lazy, 0, 0, 0, 7, 2 };
+		if (v) c.rl = rl_both;
 		add_cell(c);
 	}
 }
@@ -197,7 +207,11 @@ static const wpk WL1[] = { { 1, 1100, 100, 0, A_SRV }, { 1, 1100, 110, 0, A_SRV 
 	{ 0, 60, 124, 0, A_CLA }, { 0, 60, 125, 0, A_CLA }, { 1, 1, 2500, 0, A_SRV }, { 1, 4000, 3000, 0, A_SRV }, { 0, 4000, 3500, 0, A_CLA }, { 1, 20, 6000, 0, A_SRV } };
 static const wpk WL2[] = { { 1, 700, 100, 0, A_CLB }, { 2, 300, 200, 0, A_CLA }, { 0, 500, 300, 0, A_CLB }, { 1, 64, 900, 1, A_SRV }, { 2, 1100, 1000, 0, A_SRV }, { 0, 64, 1100, 0, A_OUT },
 	/* client-to-client packets that arrive while the receiving session has a downstream packet in flight (they wait in its queue) */
-	{ 0, 3000, 2000, 0, A_CLB }, { 1, 300, 2002, 0, A_CLB }, { 1, 64, 2004, 1, A_CLB }, { 0, 3000, 2500, 0, A_CLA }, { 2, 300, 2502, 0, A_CLA }, { 0, 80, 2504, 0, A_CLA } };
+	{ 0, 3000, 2000, 0, A_CLB }, { 1, 300, 2002, 0, A_CLB }, { 1, 64, 2004, 1, A_CLB }, { 0, 3000, 2500, 0, A_CLA }, { 2, 300, 2502, 0, A_CLA }, { 0, 80, 2504, 0, A_CLA },
+	/* bursts from the server's tun for one client while the other one is idle: the server keeps reading and fills that client's queue
+	 * (one packet in flight + four queued), first three packets, then exactly five */
+	{ 0, 64, 4000, 1, A_CLA }, { 0, 65, 4001, 1, A_CLA }, { 0, 66, 4002, 1, A_CLA },
+	{ 0, 70, 4400, 1, A_CLA }, { 0, 71, 4401, 1, A_CLA }, { 0, 72, 4402, 1, A_CLA }, { 0, 73, 4403, 1, A_CLA }, { 0, 74, 4404, 1, A_CLA } };
 /* C02 clean path: four per direction, back-to-back and spaced, all sizes that fit 16 fragments in most cells */
 static const wpk WL3[] = { { 1, 40, 100, 0, A_SRV }, { 1, 300, 101, 0, A_SRV }, { 0, 40, 102, 0, A_CLA }, { 0, 300, 103, 0, A_CLA }, { 1, 64, 2000, 1, A_SRV }, { 0, 64, 2100, 1, A_CLA },
 	{ 1, 500, 4000, 0, A_SRV }, { 0, 500, 4001, 0, A_CLA } };
@@ -208,7 +222,7 @@ static const wpk WL6[] = { { 1, 700, 100, 0, A_SRV }, { 0, 700, 150, 0, A_CLA },
 /* second session in a re-used slot (succession cells): client B has A's old tunnel address */
 static const wpk WL7[] = { { 2, 60, 100, 0, A_SRV }, { 0, 1100, 150, 0, A_CLA }, { 2, 1100, 160, 0, A_SRV }, { 0, 200, 170, 1, A_CLA }, { 2, 300, 1500, 0, A_SRV }, { 0, 300, 1600, 0, A_CLA },
 	{ 2, 64, 2500, 1, A_SRV }, { 0, 64, 2600, 1, A_CLA } };
-static const struct { const wpk *p; int n; } WLS[8] = { { WL0, 14 }, { WL1, 12 }, { WL2, 12 }, { WL3, 8 }, { WL0, 0 }, { WL5, 6 }, { WL6, 6 }, { WL7, 8 } };
+static const struct { const wpk *p; int n; } WLS[8] = { { WL0, 14 }, { WL1, 12 }, { WL2, 20 }, { WL3, 8 }, { WL0, 0 }, { WL5, 6 }, { WL6, 6 }, { WL7, 8 } };
 
 static int up_chunk_cap, down_frag_cap;
 static int WL_MUST[NS_MAXPK];   /* bytes per upstream query / downstream fragment in this cell */
@@ -449,7 +463,7 @@ static void end_of_run_c02_clean(const cell *c, const char *desc)
 					const ns_relay *r = &NC.relay;
 					size_t k = strlen(what);
 					/* root cause classes: which codec is in use in the direction the relay transforms, and how */
-					snprintf(what + k, sizeof what - k, ":%s:down-%c:answers-%s-%s-%s", (c->qt == 7 && c->de == 0) ? "autodetected" : "forced", ca_w_downenc() > ' ' ? ca_w_downenc() : 'T',
+					snprintf(what + k, sizeof what - k, ":%s:down-%c:answers-%s-%s-%s", (c->de == 0) ? "autodetected" : "forced", ca_w_downenc() > ' ' ? ca_w_downenc() : 'T',
 						 CS[r->acase], E8[r->a8], PU[r->apunct]);
 				}
 				viol(what, "clean path, %s: packets accepted from proc %d for proc %d: [%s] delivered: [%s]", desc, src, dst, a, b);
